@@ -519,6 +519,37 @@ def desugar_zip_index(body, rules):
     return out
 
 
+def desugar_enumerate(body, rules):
+    """R21: `for ( I , & X ) in E . iter ( ) . enumerate ( ) { B }` (E an identifier naming a slice) ->
+    `let mut __ek = 0 ; while __ek < E . len ( ) { let I = __ek ; let X = E [ __ek ] ; __ek += 1 ; B }`:
+    enumerate yields (k, &E[k]) for k = 0 .. len; the counter is advanced before B so that `continue` in B behaves as in the
+    original (Verus rejects the adapter, and `continue` in a `for`)."""
+    out = list(body)
+    i = 0
+    n_done = 0
+    while i < len(out):
+        tail = [x.s for x in out[i:i + 17]]
+        if len(tail) == 17 and tail[0] == "for" and tail[1] == "(" and tail[3] == "," and tail[4] == "&" and tail[6] == ")" and tail[7] == "in" \
+                and tail[9:] == [".", "iter", "(", ")", ".", "enumerate", "(", ")"] and out[i + 2].k == "id" and out[i + 5].k == "id" and out[i + 8].k == "id" \
+                and i + 17 < len(out) and out[i + 17].s == "{":
+            idx_n, x, e = out[i + 2].s, out[i + 5].s, out[i + 8].s
+            ek = "__ek%d" % n_done
+            def T(kk, s_):
+                return Tok(kk, s_, out[i].a, out[i].b)
+            rep = [T("id", "let"), T("id", "mut"), T("id", ek), T("p", "="), T("num", "0"), T("p", ";"),
+                   T("id", "while"), T("id", ek), T("p", "<"), T("id", e), T("p", "."), T("id", "len"), T("p", "("), T("p", ")"), T("p", "{"),
+                   T("id", "let"), T("id", idx_n), T("p", "="), T("id", ek), T("p", ";"),
+                   T("id", "let"), T("id", x), T("p", "="), T("id", e), T("p", "["), T("id", ek), T("p", "]"), T("p", ";"),
+                   T("id", ek), T("p", "+="), T("num", "1"), T("p", ";")]
+            out = out[:i] + rep + out[i + 18:]
+            rules.fired.add("R21")
+            n_done += 1
+            i += len(rep)
+            continue
+        i += 1
+    return out
+
+
 def desugar_ref_pattern_for(body, rules):
     """R20: `for & X in E {` -> `for X__r in __it<k> : ( E ) . iter ( ) { let X = * X__r ;` (E a slice expression without braces):
     the by-reference pattern binds X to a copy of each element, which is what the inserted `let` does; the label gives loop
@@ -795,6 +826,7 @@ def render_fn(idx, fs, table, ctx):
     body = toks[it.tb + 1:it.t1]
     body = drop_unused_rev(body, rules)
     body = desugar_zip_index(body, rules)
+    body = desugar_enumerate(body, rules)
     body = desugar_ref_pattern_for(body, rules)
     # loop invariants and anchored hints are inserted by token position
     inserts = {}
